@@ -477,6 +477,9 @@ def gen_lr() -> Tuple[str, Dict[str, str]]:
     for k, v in D["ply"].items():
         skel[f"ply/yacc.py:{k}"] = v
     skel["ply:version"] = D["ply_version"]
+    # coq/theories/LRFront.v (productions a printed tree reduces by) follows the grammar by hand
+    skel["grammar"] = vlib.sha256(json.dumps([[p["name"], p["rhs"], p["func"], p["prec"]] for p in prods]
+                                             + [G["tokens"], G["literals"]]))
     return "\n".join(out) + "\n", skel
 
 
